@@ -90,10 +90,10 @@ void Exec::op_heap(const Op& op) {
   if (h < 2) return;   // never delete/destroy the backing heap (documented precondition)
   bool destroy = (nm == "hdestroy") && H.destroyable;
   if (nm != "hdel" && nm != "hdestroy") return;
-  if (!destroy && H.tag != 0) {   // guard: reclaiming a page whose heap tag no longer exists on the thread is reported as an error by design
-    bool other = false; for (int g = 1; g < NHEAPS; g++) if (g != h && m.heaps[g].alive && m.heaps[g].tag == H.tag) other = true;
-    bool any = false; for (auto& kv : m.live) if (m.slots[kv.second].tag == H.tag) any = true;
-    if (any && !other) { count(C_EXCLUDED); return; }
+  if (!destroy && H.tag != 0) {   // guard: pages of a tagged heap that get abandoned are reclaimed by whichever thread comes first; without a heap of
+    // that tag there, the allocator reports an error by design ("page with tag %u cannot be reclaimed by a heap with the same tag")
+    bool any = false; for (auto& kv : m.live) if (m.slots[kv.second].home == h) any = true;
+    if (any && !known_f5_off) { count(C_EXCLUDED); return; }
   }
   verify_all("before-heap-release");
   size_t owned = 0, others = 0; for (auto& kv : m.live) { if (m.slots[kv.second].home == h) owned++; else others++; }
